@@ -40,6 +40,13 @@ class HarnessError(Exception):
     under test (a missing seam, an API the harness depends on).  Never a violation."""
 
 
+def is_resource_failure(text: str) -> bool:
+    """Out-of-memory under the worker's address-space limit: depends on what the process did
+    before, so it is neither repeatable nor a statement about cirkit."""
+    return ("MemoryError" in text or "allocate memory" in text or "std::bad_alloc" in text
+            or "out of memory" in text.lower())
+
+
 class Violation(Exception):
     """A property violation found by an oracle."""
 
